@@ -219,7 +219,7 @@ class Ctx:
         ev = dict(property_id=self.prop, tier=self.tier, seed=self.seed, level=self.level, coverage=cov,
                   assumptions=self.assumptions, wall_s=round(wall, 2), violations=len(self.violations))
         # evidence/ describes the tree in /repo; runs against a scratch worktree (seeded or allowed changes) write elsewhere
-        edir = os.path.join(VERIF, "evidence" if os.path.realpath(REPO) == "/repo" else "evidence_scratch")
+        edir = os.path.join(VERIF, "evidence" if os.path.realpath(REPO) == "/repo" and not getattr(self, "is_replay", False) else "evidence_scratch")
         os.makedirs(edir, exist_ok=True)
         json.dump(ev, open(os.path.join(edir, self.prop + ".json"), "w"), indent=1, default=str)
         for k in self.known_hits:
